@@ -173,7 +173,7 @@ def check_case(ctx, case, collected=None):
             return
     # (6) unrepresentable values
     for k in keys:
-        if k in ("fn", "kl", "md", "ident", "add", "kw", "first", "len", "sum", "sorted", "all", "any", "str", "Node"):
+        if k in ("fn", "kl", "md", "ident", "add", "kw", "tag", "first", "len", "sum", "sorted", "all", "any", "str", "Node"):
             fail("(6)unrepresentable-listed", "%r (a function/class/module) is listed" % k)
             return
     # (5) every rendering through the contract's a_repr: reuse the CPython oracle of C06
